@@ -66,3 +66,14 @@ Proof. vm_compute. reflexivity. Qed.
 Require SrcParamsOK.
 Definition C08_source_constants := (SrcParamsOK.compute_constants_v1, SrcParamsOK.compute_constants_v2, SrcParamsOK.compute_constants_v3,
   SrcParamsOK.cube_next_digit_identities, SrcParamsOK.format_constants).
+
+(* the 0.ddde+XX form: the mantissa is print_fixed with exponent 0 (C08_shape / C08_value apply with exp = 0), then
+   e or E, then the exponent as a sign and at least two decimal digits denoting |exponent| *)
+Require DecProof.
+Theorem C08_sci_form : forall f d v e, fs_sci f = true -> - 10 ^ 80 < e < 10 ^ 80 ->
+  exists ds, print_number f d v e =
+             print_fixed (fs_sig f) 0 (fs_exact f) (digits_for d v (fs_sig f))
+             ++ [if fs_capital f then 69 else 101] ++ (if e <? 0 then 45 else 43) :: ds /\
+             (2 <= length ds)%nat /\ Forall (fun c => 48 <= c <= 57) ds /\ DecProof.codes_value ds = Z.abs e.
+Proof. exact sci_form. Qed.
+Print Assumptions C08_sci_form.
